@@ -742,4 +742,431 @@ theorem tree_insertRange_spec (ho : Order lt) (cfg : Cfg) (hmax : 0 < cfg.maxCap
 
 end insrange
 
+/-! ### `pvMergeToLinear` -/
+
+section linear
+variable (lt : α → α → Bool)
+
+/-- `pvIsOrdered` as a proposition on two elements -/
+def Ord (multi : Bool) (a b : α) : Prop := if multi then lt b a = false else lt a b = true
+
+theorem isOrderedItems_iff (cfg : Cfg) (a b : α) : Tree.isOrderedItems lt cfg a b = true ↔ Ord lt cfg.multi a b := by
+  unfold Tree.isOrderedItems Ord
+  cases cfg.multi <;> simp
+
+theorem sortedBy_iff_ord (multi : Bool) (l : List α) : SortedBy lt multi l ↔ l.Pairwise (Ord lt multi) := by
+  unfold SortedBy Ord
+  cases multi <;> simp
+
+/-- `e` before `x` and `x` before-or-at `s` in a sorted source: `e` before `s` -/
+theorem ord_trans (ho : Order lt) (multi : Bool) (e x s : α) (h1 : Ord lt multi e x) (h2 : Ord lt multi x s) :
+    Ord lt multi e s := by
+  unfold Ord at *
+  cases multi with
+  | true => simp only [if_true] at *; exact ho.le_trans e x s h1 h2
+  | false => simp only [Bool.false_eq_true, if_false] at *; exact ho.lt_trans e x s h1 h2
+
+/-- the skipping loop: it stops at the first destination element from `q` on that is not ordered before `x` -/
+theorem skip_spec (cfg : Cfg) (dst : Tree α) (hw : dst.WF cfg) (x : α) (fuel : Nat) (dpos : Pos)
+    (hv : dst.ValidPos dpos) (hf : dst.toList.length ≤ dst.idxOf dpos + fuel) :
+    dst.ValidPos (Tree.mergeLinear.skip lt cfg dst x fuel dpos) ∧
+    dst.idxOf dpos ≤ dst.idxOf (Tree.mergeLinear.skip lt cfg dst x fuel dpos) ∧
+    (∀ j y, dst.idxOf dpos ≤ j → j < dst.idxOf (Tree.mergeLinear.skip lt cfg dst x fuel dpos) →
+        dst.toList[j]? = some y → Ord lt cfg.multi y x) ∧
+    (∀ y, dst.toList[dst.idxOf (Tree.mergeLinear.skip lt cfg dst x fuel dpos)]? = some y → ¬ Ord lt cfg.multi y x) := by
+  induction fuel generalizing dpos with
+  | zero =>
+    have hle := validPos_idx_le_len cfg dst hw dpos hv
+    have he : dst.idxOf dpos = dst.toList.length := by omega
+    simp only [Tree.mergeLinear.skip]
+    refine ⟨hv, Nat.le_refl _, fun j y h1 h2 => by omega, fun y hy => ?_⟩
+    have := lt_of_getElem? hy; omega
+  | succ n ih =>
+    simp only [Tree.mergeLinear.skip]
+    by_cases hend : dpos = dst.endPos
+    · rw [if_pos hend]
+      have he := (tree_pos_eq_end_iff cfg dst hw dpos hv).mp hend
+      refine ⟨hv, Nat.le_refl _, fun j y h1 h2 => by omega, fun y hy => ?_⟩
+      have := lt_of_getElem? hy; omega
+    · rw [if_neg hend]
+      have hlt : dst.idxOf dpos < dst.toList.length := by
+        have h1 := validPos_idx_le_len cfg dst hw dpos hv
+        have h2 := mt (tree_pos_eq_end_iff cfg dst hw dpos hv).mpr hend
+        omega
+      have hve := validElem_of_idx_lt cfg dst hw dpos hv hlt
+      obtain ⟨y0, hy1, hy2⟩ := tree_elemAt_spec cfg dst hw dpos hve
+      simp only [hy1]
+      by_cases ho' : Tree.isOrderedItems lt cfg y0 x = true
+      · rw [if_pos ho']
+        obtain ⟨n1, n2⟩ := tree_next_spec cfg dst hw dpos hve
+        obtain ⟨i1, i2, i3, i4⟩ := ih (dst.next dpos) n2 (by omega)
+        refine ⟨i1, by omega, ?_, i4⟩
+        intro j y h1 h2 hy
+        by_cases hj : j = dst.idxOf dpos
+        · subst hj; rw [hy2] at hy; cases hy; exact (isOrderedItems_iff lt cfg _ _).mp ho'
+        · exact i3 j y (by omega) h2 hy
+      · rw [if_neg ho']
+        refine ⟨hv, Nat.le_refl _, fun j y h1 h2 => by omega, fun y hy => ?_⟩
+        rw [hy2] at hy; cases hy
+        exact fun h => ho' ((isOrderedItems_iff lt cfg _ _).mpr h)
+
+/-- stable insertion lands at `q` when everything before `q` is ordered before `x` and the element at `q` is not -/
+theorem insert1_at (ho : Order lt) (multi : Bool) (l : List α) (q : Nat) (x : α) (hs : SortedBy lt multi l)
+    (hq : q ≤ l.length) (h1 : ∀ j y, j < q → l[j]? = some y → Ord lt multi y x)
+    (h2 : ∀ y, l[q]? = some y → lt x y = true) :
+    Spec.insert1 lt multi l x = l.insertIdx q x := by
+  have hsw := hs.weak ho
+  have hbefore : ∀ j y, j < q → l[j]? = some y → lt x y = false := by
+    intro j y hj hy
+    have := h1 j y hj hy
+    unfold Ord at this
+    cases multi with
+    | true => simpa using this
+    | false => exact ho.asymm _ _ (by simpa using this)
+  have hub : upperIdx lt l x = q := by
+    rw [← firstTrue_upper]; exact firstTrue_eq_of _ l q hbefore hq h2
+  unfold Spec.insert1
+  rw [hub]
+  split
+  · rename_i hc
+    exfalso
+    obtain ⟨hm, hany⟩ := hc
+    obtain ⟨y, hy, he⟩ := (any_equiv_iff lt _ _).mp hany
+    simp only [equiv, Bool.and_eq_true, Bool.not_eq_true'] at he
+    obtain ⟨j, hj⟩ := List.getElem?_of_mem hy
+    obtain ⟨_, _, f3⟩ := upperIdx_facts lt ho l x hsw
+    by_cases hjq : j < q
+    · have := h1 j y hjq hj
+      unfold Ord at this
+      rw [hm] at this
+      simp only [Bool.false_eq_true, if_false] at this
+      rw [he.1] at this; cases this
+    · have := f3 j y (by omega) hj
+      rw [he.2] at this; cases this
+  · rfl
+
+theorem mergeLinear_go_spec (ho : Order lt) (cfg : Cfg) (hmax : 0 < cfg.maxCap) (fuel : Nat) (src dst : Tree α)
+    (hws : src.WF cfg) (hss : SortedBy lt cfg.multi src.toList) (hwd : dst.WF cfg)
+    (hsd : SortedBy lt cfg.multi dst.toList) (pos dpos : Pos) (hv : src.ValidPos pos) (hvd : dst.ValidPos dpos)
+    (hf : src.toList.length ≤ src.idxOf pos + fuel)
+    (hinv : ∀ j e i s, j < dst.idxOf dpos → dst.toList[j]? = some e → src.idxOf pos ≤ i → src.toList[i]? = some s →
+      Ord lt cfg.multi e s) :
+    (Tree.mergeLinear.go lt cfg fuel src dst pos dpos).2.toList =
+        (src.toList.drop (src.idxOf pos)).foldl (Spec.insert1 lt cfg.multi) dst.toList ∧
+    (Tree.mergeLinear.go lt cfg fuel src dst pos dpos).2.WF cfg ∧
+    SortedBy lt cfg.multi (Tree.mergeLinear.go lt cfg fuel src dst pos dpos).2.toList := by
+  induction fuel generalizing src dst pos dpos with
+  | zero =>
+    have hle := validPos_idx_le_len cfg src hws pos hv
+    have : src.idxOf pos = src.toList.length := by omega
+    simp only [Tree.mergeLinear.go]
+    exact ⟨by rw [this]; simp, hwd, hsd⟩
+  | succ n ih =>
+    simp only [Tree.mergeLinear.go]
+    by_cases hend : pos = src.endPos
+    · rw [if_pos hend]
+      have := (tree_pos_eq_end_iff cfg src hws pos hv).mp hend
+      exact ⟨by rw [this]; simp, hwd, hsd⟩
+    · rw [if_neg hend]
+      have hlt : src.idxOf pos < src.toList.length := by
+        have h1 := validPos_idx_le_len cfg src hws pos hv
+        have h2 := mt (tree_pos_eq_end_iff cfg src hws pos hv).mpr hend
+        omega
+      have hve := validElem_of_idx_lt cfg src hws pos hv hlt
+      obtain ⟨x, hx1, hx2⟩ := tree_elemAt_spec cfg src hws pos hve
+      have hdrop : src.toList.drop (src.idxOf pos) = x :: src.toList.drop (src.idxOf pos + 1) := by
+        rw [List.drop_eq_getElem_cons hlt]; congr 1
+        rw [List.getElem?_eq_getElem hlt] at hx2; exact Option.some.inj hx2
+      simp only [hx1]
+      have hfd : dst.toList.length ≤ dst.idxOf dpos + (dst.count + 1) := by rw [hwd.count]; omega
+      obtain ⟨k1, k2, k3, k4⟩ := skip_spec lt cfg dst hwd x (dst.count + 1) dpos hvd hfd
+      generalize hdp : Tree.mergeLinear.skip lt cfg dst x (dst.count + 1) dpos = dp at k1 k2 k3 k4
+      -- everything before the stopping point is ordered before `x`
+      have hbefore : ∀ j y, j < dst.idxOf dp → dst.toList[j]? = some y → Ord lt cfg.multi y x := by
+        intro j y hj hy
+        by_cases hjq : j < dst.idxOf dpos
+        · exact hinv j y (src.idxOf pos) x hjq hy (Nat.le_refl _) hx2
+        · exact k3 j y (by omega) hj hy
+      -- later source elements come after `x`
+      have hsrc : ∀ i s, src.idxOf pos < i → src.toList[i]? = some s → Ord lt cfg.multi x s := by
+        intro i s hi hs'
+        have hp := (sortedBy_iff_ord lt cfg.multi _).mp hss
+        have hil := lt_of_getElem? hs'
+        have := List.pairwise_iff_getElem.mp hp (src.idxOf pos) i hlt hil hi
+        rw [List.getElem?_eq_getElem hlt] at hx2
+        rw [List.getElem?_eq_getElem hil] at hs'
+        cases hx2; cases hs'; exact this
+      have hgd := isGreater_spec lt dst cfg hwd dp k1 x
+      have hdple := validPos_idx_le_len cfg dst hwd dp k1
+      by_cases hcond : (cfg.multi || Tree.isGreater lt dst dp x) = true
+      · rw [if_pos hcond]
+        -- the element at the stopping point is greater than `x`
+        have hat : ∀ y, dst.toList[dst.idxOf dp]? = some y → lt x y = true := by
+          intro y hy
+          have hno := k4 y hy
+          rcases Bool.or_eq_true _ _ |>.mp hcond with hm | hgr
+          · unfold Ord at hno; rw [hm] at hno
+            simp only [if_true] at hno
+            cases h : lt x y with
+            | true => rfl
+            | false => exact absurd h hno
+          · rw [hgd, hy] at hgr; exact hgr
+        have hins := insert1_at lt ho cfg.multi dst.toList (dst.idxOf dp) x hsd hdple hbefore hat
+        obtain ⟨a1, a2, a3, a4⟩ := tree_add_spec cfg hmax dst hwd dp k1 x
+        have hsorted : SortedBy lt cfg.multi (dst.add cfg dp x).1.toList := by
+          rw [a1, ← hins]; exact insert1_sorted lt ho cfg.multi _ x hsd
+        obtain ⟨r1, r2, r3, r4⟩ := tree_remove_spec cfg src hws pos hve
+        have hss' : SortedBy lt cfg.multi (src.remove cfg pos).1.toList := by
+          rw [r1]; exact sortedBy_eraseIdx lt _ _ _ hss
+        obtain ⟨m1, m2⟩ := tree_next_spec cfg (dst.add cfg dp x).1 a2 _ a4
+        have hsub : (src.remove cfg pos).1.toList.drop ((src.remove cfg pos).1.idxOf (src.remove cfg pos).2) =
+            src.toList.drop (src.idxOf pos + 1) := by
+          rw [r1, r3, List.eraseIdx_eq_take_drop_succ]
+          have h1 : (src.toList.take (src.idxOf pos)).length = src.idxOf pos := by simp; omega
+          rw [List.drop_append_of_le_length (by omega), List.drop_of_length_le (by omega)]
+          simp
+        obtain ⟨i1, i2, i3⟩ := ih (src.remove cfg pos).1 (dst.add cfg dp x).1 r2 hss' a2 hsorted
+          (src.remove cfg pos).2 ((dst.add cfg dp x).1.next (dst.add cfg dp x).2) r4 m2
+          (by rw [r1, r3, List.length_eraseIdx_of_lt hlt]; omega)
+          (by
+            intro j e i s hj he hi hs'
+            rw [m1, a3] at hj
+            rw [a1] at he
+            -- the source element `s` is a later element of the old source
+            rw [r3] at hi
+            have hs'' : src.toList[i + 1]? = some s := by
+              rw [r1, List.getElem?_eraseIdx_of_ge hi] at hs'; exact hs'
+            have hxs := hsrc (i + 1) s (by omega) hs''
+            by_cases hjq : j < dst.idxOf dp
+            · rw [List.getElem?_insertIdx_of_lt hjq] at he
+              exact ord_trans lt ho cfg.multi e x s (hbefore j e hjq he) hxs
+            · have : j = dst.idxOf dp := by omega
+              subst this
+              rw [List.getElem?_insertIdx_self, if_pos hdple] at he
+              cases he; exact hxs)
+        exact ⟨by rw [i1, hsub, a1, hdrop, List.foldl_cons, hins], i2, i3⟩
+      · rw [if_neg hcond]
+        simp only [Bool.or_eq_true, not_or, Bool.not_eq_true] at hcond
+        obtain ⟨hm, hng⟩ := hcond
+        -- unique keys and the element at the stopping point is equivalent to `x`
+        rw [hgd] at hng
+        cases hy : dst.toList[dst.idxOf dp]? with
+        | none => rw [hy] at hng; cases hng
+        | some y =>
+          rw [hy] at hng
+          simp only at hng
+          have hno := k4 y hy
+          have hyx : lt y x = false := by
+            unfold Ord at hno; rw [hm] at hno
+            simp only [Bool.false_eq_true, if_false] at hno
+            cases h : lt y x with
+            | false => rfl
+            | true => exact absurd h hno
+          have hskip : Spec.insert1 lt cfg.multi dst.toList x = dst.toList := by
+            unfold Spec.insert1
+            rw [if_pos ⟨hm, (any_equiv_iff lt _ _).mpr ⟨y, List.mem_of_getElem? hy, by
+              simp only [equiv, Bool.and_eq_true, Bool.not_eq_true']; exact ⟨hyx, hng⟩⟩⟩]
+          obtain ⟨n1, n2⟩ := tree_next_spec cfg src hws pos hve
+          have hdlt : dst.idxOf dp < dst.toList.length := lt_of_getElem? hy
+          have hved := validElem_of_idx_lt cfg dst hwd dp k1 hdlt
+          obtain ⟨d1, d2⟩ := tree_next_spec cfg dst hwd dp hved
+          obtain ⟨i1, i2, i3⟩ := ih src dst hws hss hwd hsd (src.next pos) (dst.next dp) n2 d2 (by omega)
+            (by
+              intro j e i s hj he hi hs'
+              rw [d1] at hj; rw [n1] at hi
+              have hxs := hsrc i s (by omega) hs'
+              by_cases hjq : j < dst.idxOf dp
+              · exact ord_trans lt ho cfg.multi e x s (hbefore j e hjq he) hxs
+              · have : j = dst.idxOf dp := by omega
+                subst this
+                rw [hy] at he; cases he
+                -- y ≤ x < s
+                unfold Ord at hxs ⊢
+                rw [hm] at hxs ⊢
+                simp only [Bool.false_eq_true, if_false] at hxs ⊢
+                cases h : lt y s with
+                | true => rfl
+                | false =>
+                  have := ho.le_trans s y x h hng
+                  rw [this] at hxs; cases hxs)
+          exact ⟨by rw [i1, n1, hdrop, List.foldl_cons, hskip], i2, i3⟩
+
+/-- `pvMergeToLinear` gives the destination the same sequence as inserting the source elements one after the other -/
+theorem tree_mergeLinear_spec (ho : Order lt) (cfg : Cfg) (hmax : 0 < cfg.maxCap) (src dst : Tree α)
+    (hws : src.WF cfg) (hss : SortedBy lt cfg.multi src.toList) (hwd : dst.WF cfg)
+    (hsd : SortedBy lt cfg.multi dst.toList) :
+    (Tree.mergeLinear lt cfg src dst).2.toList = src.toList.foldl (Spec.insert1 lt cfg.multi) dst.toList ∧
+    (Tree.mergeLinear lt cfg src dst).2.WF cfg ∧ SortedBy lt cfg.multi (Tree.mergeLinear lt cfg src dst).2.toList := by
+  obtain ⟨b1, b2, _, _⟩ := tree_begin_end_spec cfg src hws
+  obtain ⟨c1, c2, _, _⟩ := tree_begin_end_spec cfg dst hwd
+  have := mergeLinear_go_spec lt ho cfg hmax (src.count + dst.count + 1) src dst hws hss hwd hsd src.beginPos
+    dst.beginPos b2 c2 (by rw [b1, hws.count]; omega) (by intro j e i s hj; rw [c1] at hj; omega)
+  unfold Tree.mergeLinear
+  rw [b1] at this
+  simpa using this
+
+end linear
+
+/-! ### `MergeTo(TreeSet&)` -/
+
+section mergeTo
+variable (lt : α → α → Bool)
+
+theorem node_last_elem {d : Nat} {r : Node α} (hb : Bal d r) (hne : toList r ≠ []) :
+    elemAt? r (Node.prev r (Node.endPos r)) = (toList r).getLast? := by
+  have hpos : 0 < idxOf r (Node.endPos r).path (Node.endPos r).idx := by
+    rw [idxOf_endPos hb]; simp only [size]; exact List.length_pos_iff.mpr hne
+  obtain ⟨p1, p2⟩ := BTree.prev_spec hb (Node.endPos r).path (Node.endPos r).idx (m := r) (by simp [Node.endPos])
+    (by simp [Node.endPos]) hpos
+  have hpp : (⟨(Node.endPos r).path, (Node.endPos r).idx⟩ : Pos) = Node.endPos r := rfl
+  rw [hpp] at p1 p2
+  obtain ⟨x, hx⟩ := validElem_elemAt p2
+  have hx' := elemAt_toList hb _ _ x hx
+  have hqq : (⟨(Node.prev r (Node.endPos r)).path, (Node.prev r (Node.endPos r)).idx⟩ : Pos) =
+      Node.prev r (Node.endPos r) := rfl
+  rw [hqq] at hx
+  rw [hx, List.getLast?_eq_getElem?, ← hx']
+  congr 1
+  rw [idxOf_endPos hb] at p1; simp only [size] at p1; omega
+
+theorem node_first_elem {d : Nat} {r : Node α} (hb : Bal d r) (hne : toList r ≠ []) :
+    elemAt? r (Node.beginPos r) = (toList r).head? := by
+  obtain ⟨b1, b2⟩ := beginPos_spec hb
+  have hv : ValidElem r (Node.beginPos r).path (Node.beginPos r).idx := by
+    rcases b2 with h | h
+    · exact h
+    · rw [h, idxOf_endPos hb] at b1
+      simp only [size] at b1
+      exact absurd (List.eq_nil_of_length_eq_zero b1) hne
+  obtain ⟨x, hx⟩ := validElem_elemAt hv
+  have hx' := elemAt_toList hb _ _ x hx
+  have hqq : (⟨(Node.beginPos r).path, (Node.beginPos r).idx⟩ : Pos) = Node.beginPos r := rfl
+  rw [hqq] at hx
+  rw [hx, List.head?_eq_getElem?, ← hx', b1]
+
+theorem sortedBy_append (ho : Order lt) (multi : Bool) (a b : List α) (x y : α) (ha : SortedBy lt multi a)
+    (hb : SortedBy lt multi b) (hx : a.getLast? = some x) (hy : b.head? = some y) (hxy : Ord lt multi x y) :
+    SortedBy lt multi (a ++ b) := by
+  rw [sortedBy_iff_ord] at ha hb ⊢
+  refine List.pairwise_append.mpr ⟨ha, hb, ?_⟩
+  intro u hu v hv
+  -- u is before-or-equal x, y before-or-equal v
+  have hux : u = x ∨ Ord lt multi u x := by
+    obtain ⟨init, rfl⟩ := List.getLast?_eq_some_iff.mp hx
+    rcases List.mem_append.mp hu with h | h
+    · exact Or.inr ((List.pairwise_append.mp ha).2.2 u h x (by simp))
+    · simp at h; exact Or.inl h
+  have hyv : y = v ∨ Ord lt multi y v := by
+    cases b with
+    | nil => simp at hy
+    | cons b0 bs =>
+      simp at hy; subst hy
+      rcases List.mem_cons.mp hv with h | h
+      · exact Or.inl h.symm
+      · exact Or.inr ((List.pairwise_cons.mp hb).1 v h)
+  rcases hux with rfl | hux
+  · rcases hyv with rfl | hyv
+    · exact hxy
+    · exact ord_trans lt ho multi _ _ _ hxy hyv
+  · rcases hyv with rfl | hyv
+    · exact ord_trans lt ho multi _ _ _ hux hxy
+    · exact ord_trans lt ho multi _ _ _ hux (ord_trans lt ho multi _ _ _ hxy hyv)
+
+theorem toList_mk (r : Node α) (c : Nat) : (({ root := some r, count := c } : Tree α)).toList = Node.toList r := rfl
+
+theorem toList_ne_nil_root (t : Tree α) (h : t.toList ≠ []) : ∃ r, t.root = some r ∧ toList r = t.toList := by
+  unfold Tree.toList at h ⊢
+  cases hr : t.root with
+  | none => simp [hr] at h
+  | some r => exact ⟨r, rfl, rfl⟩
+
+/-- `MergeTo(TreeSet&)` by whatever path it takes (swap, `pvMergeFast` on either side, `pvMergeTo`, `pvMergeToLinear`):
+    the destination ends with the reference merge of the two sequences and stays well-formed and sorted -/
+theorem tree_mergeTo_spec (ho : Order lt) (cfg : Cfg) (hmax : 0 < cfg.maxCap) (src dst : Tree α)
+    (hws : src.WF cfg) (hss : SortedBy lt cfg.multi src.toList) (hwd : dst.WF cfg)
+    (hsd : SortedBy lt cfg.multi dst.toList) :
+    (Tree.mergeTo lt cfg src dst).2.toList = Spec.merge lt cfg.multi src.toList dst.toList ∧
+    (Tree.mergeTo lt cfg src dst).2.WF cfg ∧ SortedBy lt cfg.multi (Tree.mergeTo lt cfg src dst).2.toList := by
+  unfold Tree.mergeTo
+  by_cases hs0 : src.count = 0
+  · rw [if_pos hs0]
+    have : src.toList = [] := by
+      have := hws.count; rw [hs0] at this; exact List.eq_nil_of_length_eq_zero this.symm
+    exact ⟨by simp [Spec.merge, this], hwd, hsd⟩
+  · rw [if_neg hs0]
+    have hsne : src.toList ≠ [] := by
+      intro h; apply hs0; rw [hws.count, h]; rfl
+    obtain ⟨a, ha⟩ : ∃ a, src.toList.getLast? = some a := by
+      cases h : src.toList.getLast? with
+      | none => exact absurd (List.getLast?_eq_none_iff.mp h) hsne
+      | some a => exact ⟨a, rfl⟩
+    by_cases hd0 : dst.count = 0
+    · rw [if_pos hd0]
+      have : dst.toList = [] := by
+        have := hwd.count; rw [hd0] at this; exact List.eq_nil_of_length_eq_zero this.symm
+      exact ⟨by simp [Spec.merge, this, ha], hws, hss⟩
+    · rw [if_neg hd0]
+      have hdne : dst.toList ≠ [] := by
+        intro h; apply hd0; rw [hwd.count, h]; rfl
+      obtain ⟨rs, hrs, hrsl⟩ := toList_ne_nil_root src hsne
+      obtain ⟨rd, hrd, hrdl⟩ := toList_ne_nil_root dst hdne
+      obtain ⟨ds, hbs⟩ := hws.bal rs hrs
+      obtain ⟨dd, hbd⟩ := hwd.bal rd hrd
+      have e1 := node_last_elem hbs (by rw [hrsl]; exact hsne)
+      have e2 := node_first_elem hbd (by rw [hrdl]; exact hdne)
+      have e3 := node_last_elem hbd (by rw [hrdl]; exact hdne)
+      have e4 := node_first_elem hbs (by rw [hrsl]; exact hsne)
+      rw [hrsl] at e1 e4; rw [hrdl] at e2 e3
+      obtain ⟨b, hb⟩ : ∃ b, dst.toList.head? = some b := by
+        cases h : dst.toList.head? with
+        | none => exact absurd (List.head?_eq_none_iff.mp h) hdne
+        | some b => exact ⟨b, rfl⟩
+      obtain ⟨c, hc⟩ : ∃ c, dst.toList.getLast? = some c := by
+        cases h : dst.toList.getLast? with
+        | none => exact absurd (List.getLast?_eq_none_iff.mp h) hdne
+        | some c => exact ⟨c, rfl⟩
+      obtain ⟨d0, hd⟩ : ∃ d0, src.toList.head? = some d0 := by
+        cases h : src.toList.head? with
+        | none => exact absurd (List.head?_eq_none_iff.mp h) hsne
+        | some d0 => exact ⟨d0, rfl⟩
+      simp only [hrs, hrd, e1, e2, e3, e4, ha, hb, hc, hd]
+      have hspec : Spec.merge lt cfg.multi src.toList dst.toList =
+          (if Spec.ordered lt cfg.multi a b then src.toList ++ dst.toList
+           else if Spec.ordered lt cfg.multi c d0 then dst.toList ++ src.toList
+           else src.toList.foldl (Spec.insert1 lt cfg.multi) dst.toList) := by
+        simp only [Spec.merge, ha, hb, hc, hd]
+      have hordEq : ∀ u v, Spec.ordered lt cfg.multi u v = Tree.isOrderedItems lt cfg u v := by
+        intro u v; rfl
+      rw [hspec, hordEq, hordEq]
+      have hcs := hws.count
+      have hcd := hwd.count
+      by_cases h1 : Tree.isOrderedItems lt cfg a b = true
+      · rw [if_pos h1, if_pos h1]
+        obtain ⟨m1, ⟨dm, m2⟩, m3⟩ := mergeFast_spec cfg hmax hbs hbd (by rw [hrsl]; exact hsne) (by rw [hrdl]; exact hdne)
+        rw [hrsl, hrdl] at m1
+        refine ⟨by rw [toList_mk, m1], ⟨?_, ?_, ?_⟩, ?_⟩
+        · rw [toList_mk, m1, List.length_append]; simp only; omega
+        · intro r h; cases h; exact ⟨dm, m2⟩
+        · intro r h; cases h; exact m3 (hws.caps rs hrs) (hwd.caps rd hrd)
+        · rw [toList_mk, m1]
+          exact sortedBy_append lt ho cfg.multi _ _ a b hss hsd ha hb ((isOrderedItems_iff lt cfg a b).mp h1)
+      · rw [if_neg h1, if_neg h1]
+        by_cases h2 : Tree.isOrderedItems lt cfg c d0 = true
+        · rw [if_pos h2, if_pos h2]
+          obtain ⟨m1, ⟨dm, m2⟩, m3⟩ := mergeFast_spec cfg hmax hbd hbs (by rw [hrdl]; exact hdne) (by rw [hrsl]; exact hsne)
+          rw [hrsl, hrdl] at m1
+          refine ⟨by rw [toList_mk, m1], ⟨?_, ?_, ?_⟩, ?_⟩
+          · rw [toList_mk, m1, List.length_append]; simp only; omega
+          · intro r h; cases h; exact ⟨dm, m2⟩
+          · intro r h; cases h; exact m3 (hwd.caps rd hrd) (hws.caps rs hrs)
+          · rw [toList_mk, m1]
+            exact sortedBy_append lt ho cfg.multi _ _ c d0 hsd hss hc hd ((isOrderedItems_iff lt cfg c d0).mp h2)
+        · rw [if_neg h2, if_neg h2]
+          split
+          · obtain ⟨g1, g2, g3, _, _⟩ := tree_mergeGeneric_spec lt ho cfg hmax src dst hws hwd hsd
+            exact ⟨g1, g2, g3⟩
+          · exact tree_mergeLinear_spec lt ho cfg hmax src dst hws hss hwd hsd
+
+end mergeTo
+
 end Momo.BTree
